@@ -6,8 +6,8 @@
    The functions look at: len(str) (characters in the snapshot, UTF-8 bytes after the
    repair), len(bytes), the nesting of lists and the type of a list's head.  They are
    modelled on the same argument trees as Osc.v.
-   [fx] selects the repaired computation (true: build/proposed_fixes/C06_size_prediction.diff
-   and C06_clump_bundle.diff) or the snapshot's (false).  *)
+   [fx] selects the repaired computation (true: build/proposed_fixes/C06_size_prediction.diff,
+   C06_clump_bundle.diff and C06_size_accepts.diff) or the original snapshot's (false).  *)
 From Coq Require Import ZArith QArith List Bool.
 Import ListNotations.
 Require Import SC3.model.Osc.
@@ -21,9 +21,6 @@ Definition nchars (s : bytes) : Z :=
   zlen (filter (fun b => negb (Z.land b 192 =? 128)) s).
 Definition is_ascii (s : bytes) : bool := forallb (fun b => b <? 128) s.
 
-(* head of a bundle-shaped list as _calc_bndl_dgram_size/_clump_bundle test it:
-   isinstance(e[0], (int, float)) -- None is not accepted there *)
-Definition is_numtime (a : arg) : bool := match a with ATime (Some _) _ => true | _ => false end.
 
 Fixpoint sumz (l : list Z) : Z := match l with [] => 0 | x :: r => x + sumz r end.
 
@@ -33,7 +30,7 @@ Fixpoint sumz (l : list Z) : Z := match l with [] => 0 | x :: r => x + sumz r en
 Fixpoint calc_pkt (fx : bool) (a : arg) {struct a} : res Z :=
   match a with
   | AList (AStr addr :: args) =>
-      if negb (is_ascii addr) then Err EValue          (* bytes(msg[0], 'ascii') *)
+      if negb fx && negb (is_ascii addr) then Err EValue    (* snapshot: bytes(msg[0], 'ascii'); repaired: 'utf-8' *)
       else
         (fix vals (l : list arg) : res Z :=
            match l with
@@ -58,7 +55,8 @@ Fixpoint calc_pkt (fx : bool) (a : arg) {struct a} : res Z :=
          | e :: r =>
              (match e with
               | AList (AStr _ :: _) => calc_pkt fx e
-              | AList (ATime (Some _) _ :: _) => calc_pkt fx e
+              | AList (ATime lat _ :: _) =>            (* snapshot: isinstance(e[0], (int, float)); repaired: + NoneType *)
+                  if fx || (match lat with Some _ => true | None => false end) then calc_pkt fx e else Err EValue
               | AList [] => Err EOther                 (* e[0]: IndexError *)
               | AList _ => Err EValue
               | _ => Err EOther
@@ -88,7 +86,8 @@ Fixpoint calc_vals (fx : bool) (l : list arg) : res Z :=
 Definition calc_elem (fx : bool) (e : arg) : res Z :=
   match e with
   | AList (AStr _ :: _) => calc_pkt fx e
-  | AList (ATime (Some _) _ :: _) => calc_pkt fx e
+  | AList (ATime lat _ :: _) =>
+      if fx || (match lat with Some _ => true | None => false end) then calc_pkt fx e else Err EValue
   | AList [] => Err EOther
   | AList _ => Err EValue
   | _ => Err EOther
